@@ -593,7 +593,7 @@ impl Property for C13 {
         C13 { selftest: selftest() }
     }
     fn n_cases(&self, tier: Tier) -> u64 {
-        tier.pick(50_000, 1_000_000)
+        tier.pick(300_000, 6_000_000)
     }
     fn chunk(&self, _tier: Tier) -> u64 {
         1000
